@@ -182,6 +182,8 @@ def run(c, tier):
             for lim in big:
                 if k >= lim:
                     big[lim] += 1
+        if e["ev"] == "Restart" and prev is not None and len(prev["st"]["anchors"]) >= 2:
+            big["anchors"] = big.get("anchors", 0) + 1
         prev = e
     # validation first: a rejected history is reported even when the code under test no longer produces a situation the
     # vacuity guards ask for
@@ -191,7 +193,8 @@ def run(c, tier):
         for what, n in (("evictions", evictions), ("Banned refusals", rets.get("Banned", 0)), ("PeerIdExists refusals", rets.get("PeerIdExists", 0)),
                         ("outbound-limit refusals", rets.get("ReachMaxOutboundLimit", 0)), ("non-empty fetches", fetched),
                         ("restarts", cnt.get("Restart", 0)), ("bans", cnt.get("BanAddr", 0)),
-                        ("evictions among more than 8 candidates", big[9]), ("evictions among more than 16 candidates", big[17])):
+                        ("evictions among more than 8 candidates", big[9]), ("evictions among more than 16 candidates", big[17]),
+                        ("restarts with two or more anchors", big.get("anchors", 0))):
             if n == 0:
                 raise V.ToolError("peernet histories are vacuous: no %s" % what)
     for i, h in enumerate(_split(evs)):
@@ -213,7 +216,7 @@ def run(c, tier):
         c.case({"g_peernet_purge": r["x"], "seed": V.seed()}, bool(r["removed"]))
     g.update({"histories": len(_split(evs)), "events_validated": good, "histories_rejected": bad, "event_counts": dict(cnt),
               "accept_answers": dict(rets), "evictions": evictions, "evictions_among_9plus_candidates": big[9],
-              "evictions_among_17plus_candidates": big[17], "non_empty_fetches": fetched,
+              "evictions_among_17plus_candidates": big[17], "restarts_with_2plus_anchors": big.get("anchors", 0), "non_empty_fetches": fetched,
               "ctl_histories": len(_split(cevs)), "ctl_events_validated": cgood, "ctl_rejected": cbad,
               "purge_experiments": len(precs), "purge_outcomes": dict(shapes), "purge_rejected": pbad})
     c.add("traces_validated_against_impl", len(_split(evs)) + len(_split(cevs)))
